@@ -378,7 +378,16 @@ func ruleThunkTypeAgree(c *Ctx) {
 				return
 			}
 			if mi, isMI := mu.Value.(*ssa.MakeInterface); isMI && isThunkType(mi.X.Type()) {
-				regs[mi.X.Type().String()] = mi.X.Type()
+				// one entry per type, not per spelling: an alias and what it stands for are the same dynamic type
+				known := false
+				for _, t := range regs {
+					if types.Identical(types.Unalias(t), types.Unalias(mi.X.Type())) {
+						known = true
+					}
+				}
+				if !known {
+					regs[mi.X.Type().String()] = mi.X.Type()
+				}
 				regPos = c.P.Pos(mu.Pos())
 			}
 		})
@@ -1174,4 +1183,87 @@ func ruleC09PipeNumber(c *Ctx) {
 		return
 	}
 	c.Check(len(why) == 0, "c09.pipe-number", "Reader/{k|number}", c.P.Pos(f.Pos()), "NULL stays NULL", strings.Join(uniq(why), "; "))
+}
+
+func init() {
+	register("C09", ruleC09NoLiteralShortcut)
+	register("C01", ruleC09NoLiteralShortcut)
+	register("C02", ruleC09NoLiteralShortcut)
+}
+
+// ruleC09NoLiteralShortcut: a selector text is never used as a map key of the document.
+func ruleC09NoLiteralShortcut(c *Ctx) {
+	c.Doc("c09.no-literal-shortcut", "in every function reachable from ExecReader: a string parameter that is handed to the selector parser (directly or through the cache) is never also used, as it stands, as the key of a lookup in the data — `a.b` means the path a -> b even when the object happens to hold a key spelled `a.b`, and a missing path is NULL whatever literal keys exist")
+	reach := c.readerReach()
+	parser := c.P.Func(modPath, "ParseSelector")
+	if reach == nil || parser == nil {
+		c.Unknown("c09.no-literal-shortcut", "ExecReader", "-", "anchor lost")
+		return
+	}
+	// functions from which the parser is reachable by static calls
+	toParser := map[*ssa.Function]bool{parser: true}
+	for changed := true; changed; {
+		changed = false
+		for f := range reach {
+			if toParser[f] {
+				continue
+			}
+			allInstrs(f, func(_ *ssa.BasicBlock, in ssa.Instruction) {
+				if call, ok := in.(ssa.CallInstruction); ok {
+					if sc := call.Common().StaticCallee(); sc != nil && toParser[sc] && !toParser[f] {
+						toParser[f] = true
+						changed = true
+					}
+				}
+			})
+		}
+	}
+	n := 0
+	var why []string
+	for f := range reach {
+		if f.Blocks == nil {
+			continue
+		}
+		// string parameters that travel on to the parser
+		sel := map[*ssa.Parameter]bool{}
+		allInstrs(f, func(_ *ssa.BasicBlock, in ssa.Instruction) {
+			call, ok := in.(ssa.CallInstruction)
+			if !ok {
+				return
+			}
+			sc := call.Common().StaticCallee()
+			if sc == nil || !toParser[sc] {
+				return
+			}
+			for _, a := range call.Common().Args {
+				if p, isP := a.(*ssa.Parameter); isP && p.Type().String() == "string" {
+					sel[p] = true
+				}
+			}
+		})
+		if len(sel) == 0 {
+			continue
+		}
+		n++
+		allInstrs(f, func(_ *ssa.BasicBlock, in ssa.Instruction) {
+			lk, ok := in.(*ssa.Lookup)
+			if !ok {
+				return
+			}
+			p, isP := lk.Index.(*ssa.Parameter)
+			if !isP || !sel[p] {
+				return
+			}
+			t := NewTB().Of(lk.X)
+			if strings.HasPrefix(t.String(), "g:") || t.Op == "global" {
+				return // the cache of parsed selectors, keyed by the text
+			}
+			why = append(why, fmt.Sprintf("%s looks the selector text %s up as a literal key of %s at %s", c.P.funcKey(f), p.Name(), t.String(), c.P.Pos(lk.Pos())))
+		})
+	}
+	if n == 0 {
+		c.Unknown("c09.no-literal-shortcut", "ExecReader", "-", "no function hands a string parameter to the selector parser")
+		return
+	}
+	c.Check(len(why) == 0, "c09.no-literal-shortcut", "reader", c.P.Pos(parser.Pos()), fmt.Sprintf("%d functions pass a selector text on to the parser; none uses it as a literal key of the data", n), strings.Join(uniq(why), "; "))
 }
